@@ -7,13 +7,14 @@ sys.path.insert(0, str(ROOT))
 props = [json.loads(l) for l in (ROOT / 'properties.jsonl').read_text().splitlines() if l.strip()]
 na_file = ROOT / 'not_applicable.json'
 na_reasons = json.loads(na_file.read_text()) if na_file.exists() else {}
+ready = set(json.loads((ROOT / 'ready.json').read_text()))
 checks, na = [], []
 for p in props:
     pid = p['id']
     hits = sorted((ROOT / 'checks').glob(f'{pid.lower()}_*.py'))
-    if not hits or pid in na_reasons:
+    if not hits or pid in na_reasons or pid not in ready:
         na.append(dict(property_id=pid, reason=na_reasons.get(
-            pid, 'no check built yet in this round; nothing is claimed for this property')))
+            pid, 'check still under construction / not yet validated on the unchanged tree; nothing is claimed for this property yet')))
         continue
     mod = importlib.import_module(f'checks.{hits[0].stem}')
     m = mod.META
